@@ -134,6 +134,25 @@ let handle (case : string) (out : string) : unit =
               report_fail "C09" "enc_roundtrip" case out
         | None -> report_fail "C09" "enc_roundtrip" case out
       end
+  | ["ENCZ"; da; sa; dsap; ssap; fc; n; prefix] ->
+      (* the closure wrote only `prefix`; the PDU on the wire must be prefix ++ zeros *)
+      let h = header_of [da; sa; dsap; ssap; fc] in
+      let pre = unhex prefix in
+      let n = int_of_string n in
+      let pdu = pre @ List.init (n - List.length pre) (fun _ -> Z0) in
+      let tl = int_of_nat (telegram_len (TData (h, pdu))) in
+      let model = model_tx_line (encode_data_in (nat_of_int 256) h pdu) (tx_expects_reply h) tl [] in
+      count "enc:ok:partial-write";
+      if model <> canon_panic out then report_diverge "C09" case out model;
+      if c09_domainb h pdu then begin
+        match parse_enc_out out with
+        | Some (wire, sent, exp, tlen, dec) ->
+            let (d, claimed) = (try dres_of_string dec with Bad _ -> (None, None)) in
+            let len_ok = (match claimed with Some c -> c = sent | None -> false) in
+            if not (c09_enc_ok h pdu [] wire (nat_of_int sent) exp (nat_of_int tlen) d && len_ok) then
+              report_fail "C09" "enc_zero_fill" case out
+        | None -> report_fail "C09" "enc_zero_fill" case out
+      end
   | ["TOK"; da; sa; tail] ->
       let da = z_of_int (int_of_string da) and sa = z_of_int (int_of_string sa) in
       let tail = unhex tail in
